@@ -8,6 +8,7 @@ package helper
 import (
 	"context"
 	"fmt"
+	apiequality "k8s.io/apimachinery/pkg/api/equality"
 	"strings"
 
 	appsv1 "k8s.io/api/apps/v1"
@@ -366,9 +367,16 @@ func VH_Upgrade(a []int) {
 	nrev := sym.Pick("revisions", R+1)
 	t := true
 	for i := 0; i < nrev; i++ {
-		w.revs = append(w.revs, &appsv1.ControllerRevision{ObjectMeta: metav1.ObjectMeta{
+		rev := &appsv1.ControllerRevision{ObjectMeta: metav1.ObjectMeta{
 			Name: fmt.Sprintf("web-r%d", i), Namespace: "default", Labels: map[string]string{"app": "web", "tier": "db", "controller.kubernetes.io/hash": "h"},
-			OwnerReferences: []metav1.OwnerReference{{APIVersion: "apps/v1", Kind: "StatefulSet", Name: "web", UID: "uid-builtin", Controller: &t}}}, Revision: int64(i + 1)})
+			OwnerReferences: []metav1.OwnerReference{{APIVersion: "apps/v1", Kind: "StatefulSet", Name: "web", UID: "uid-builtin", Controller: &t}}}, Revision: int64(i + 1)}
+		if sym.Pick("rev.marked", 2) == 1 {
+			// the set went to the Advanced API and back before: the revision matches the selector
+			// and still carries the marker of the earlier upgrade
+			rev.Labels[UpgradeToAdvancedStatefulSetAnn] = "web"
+			sym.Cover("a revision already carries the upgrade marker")
+		}
+		w.revs = append(w.revs, rev)
 	}
 	foreign := &appsv1.ControllerRevision{ObjectMeta: metav1.ObjectMeta{Name: "other-r0", Namespace: "default", Labels: map[string]string{"app": "other"}}, Revision: 1}
 	w.revs = append(w.revs, foreign)
@@ -435,6 +443,7 @@ func VH_Upgrade(a []int) {
 		sym.Assert(got != nil, "C17", "an Advanced StatefulSet exists before the built-in one is removed")
 		if got != nil {
 			sym.Assert(got.Name == sts.Name && got.Namespace == sts.Namespace, "C17", "same name")
+			sym.Assert(apiequality.Semantic.DeepEqual(got.Spec, want.Spec), "C17", "same spec, field by field")
 			sym.Assert(*got.Spec.Replicas == *want.Spec.Replicas && got.Spec.ServiceName == want.Spec.ServiceName &&
 				got.Spec.Template.Spec.Containers[0].Image == "nginx" && got.Spec.UpdateStrategy.RollingUpdate != nil &&
 				*got.Spec.UpdateStrategy.RollingUpdate.Partition == 1 && got.Spec.Selector != nil, "C17", "same spec")
